@@ -146,6 +146,11 @@ def classify_x(xline, trace_lines):
         props |= {"C05", "*"}
     elif oracle in ("driver-crash", "dump-parse", "alloc"):
         props |= {"C05"}
+    elif oracle == "panic":
+        # the safe API panicked where the reference completes: the operation's own property fails
+        props |= {"C05"} | {"q": {"C03"}, "entries": {"C03"}, "entryq": {"C03"}, "parq": {"C09"},
+                            "sched": {"C07", "C08"}, "clone": {"C10"}, "clonefrom": {"C10"}, "eq": {"C16"},
+                            "res": {"C15"}, "de": ({"C11"} if mutated else {"C06"})}.get(opname, {"C01"})
     elif oracle == "spec":
         props |= {"C01"}
         if "ident" in rest:
@@ -158,6 +163,10 @@ def classify_x(xline, trace_lines):
         props |= {"C10"}
     elif oracle == "eq":
         props |= {"C16"}
+        if " by clone" in rest:
+            props |= {"C10"}
+        if "serde round trip" in rest:
+            props |= {"C06"}
     elif oracle == "stages":
         if "serialised" in rest:
             props |= {"C12"}
@@ -212,6 +221,12 @@ def serde_runs(tier, seed):
 
 
 def mutate_runs(tier, seed):
+    return core_runs(tier, seed, profile="multi-serde-mutate")
+
+
+def c04_runs(tier, seed):
+    # values built by a deserialization that fails must be dropped too: the ownership check also
+    # runs histories with mutated token streams
     return core_runs(tier, seed, profile="multi-serde-mutate")
 
 
@@ -278,7 +293,7 @@ TRUSTED = [
 ]
 
 HOOK_COMMITS = ["903a2e5", "7f71e80"]
-FIX_COMMITS = ["7b7a5a0", "885588c", "58c8a9f", "3d46a06", "0180007", "7197610", "0564c68"]
+FIX_COMMITS = ["7b7a5a0", "885588c", "58c8a9f", "3d46a06", "0180007", "7197610", "0564c68", "450bc0a", "bbb86ce"]
 NOT_APPLICABLE = {}
 
 CORE_TRUST = ("Lean kernel + {propext, Classical.choice, Quot.sound}; hand-written L1 model tied to the code by the "
@@ -295,8 +310,8 @@ PROPS = {
     "C02": dict(runs=core_runs,
                 level="allocator theorems (freshness, stability, death of identifiers) for every allocator history, lifted to world histories (every world op acts on the allocator only through allocate/release/setLoc on live identifiers): dead forever, never reissued, stable, dead in copies (Props/C02.lean); probes of every issued identifier compared with the model",
                 trust=CORE_TRUST, technique="Lean 4 proof (allocator invariant, induction) + differential correspondence check"),
-    "C04": dict(runs=core_runs,
-                level="conservation theorem over all histories (owned ++ dropped is a permutation of moved-in), exactly-once, clone_from drops exactly what the destination owned, clones own copies (Props/C04.lean); per-op drop multisets of the real code (observing Drop impls) compared with the model, ledger empty after all worlds dropped",
+    "C04": dict(runs=c04_runs,
+                level="conservation theorem over all histories (owned ++ dropped is a permutation of moved-in), exactly-once, clone_from drops exactly what the destination owned, clones and round-tripped worlds own copies (Props/C04.lean, C06_roundtrip_owns_copies); a deserialization that fails must drop every value it had built (ledger on the real code, mutated token streams); per-op drop multisets of the real code (observing Drop impls) compared with the model, ledger empty after all worlds dropped",
                 trust=CORE_TRUST, technique="Lean 4 proof (multiset conservation per op) + differential correspondence check with a drop ledger"),
     "C03": dict(runs=query_runs,
                 level="query model (filter recursion, bit-walk column selection, optional views, entry and sub-view queries, size_hint) with theorems in Props/C03.lean; a generated family of typed queries run on the real World after random histories and compared row-for-row with the model; size_hint checked against the true remaining count at every step",
